@@ -27,6 +27,10 @@ static Dgram make_dgram(int d, long n, long scale, const std::string& mode, vh::
     g.id = mode == "distinct_id" ? (uint16_t)(0x1000 + d) : 0x4242;
     if (mode == "reverse") { g.src = d == 1 ? "10.1.1.1" : "10.1.1.2"; g.dst = d == 1 ? "10.1.1.2" : "10.1.1.1"; }
     else if (mode == "distinct_pair") { g.src = d == 1 ? "10.1.1.1" : "10.1.1.3"; g.dst = "10.1.1.2"; }
+    else if (mode == "mixed") {
+        // several concurrent datagrams whose identifications and address pairs are drawn from small sets independently (distinct
+        // triples): any order relation between the keys' components occurs
+        g.id = (uint16_t)(1 + rng.below(5)); g.src = "10.0.0." + std::to_string(1 + rng.below(4)); g.dst = "10.0.0." + std::to_string(1 + rng.below(4)); }
     else { g.src = "10.1.1.1"; g.dst = "10.1.1.2"; }
     long total = n * g.U; if (trim >= 0) total -= trim; else if (partial_last && n > 1) total -= rng.range(0, (int)g.U - 1);
     // "any protocol": the three libtins dissects, and protocol numbers it has no class for (the payload then stays raw bytes)
@@ -49,9 +53,13 @@ static void scenario(const vh::Json& sc, vh::Out& out, vh::Rng& rng, const vh::A
     long scale = sc.has("scale") ? sc["scale"].num() : 1;
     bool partial = rng.coin();
     long trim = sc.has("trim") ? sc["trim"].num() : -1;      // exact size of datagram 1: n*unit - trim octets
-    Dgram g[3]; g[1] = make_dgram(1, sc["n"][0].num(), scale, mode, rng, partial, trim); g[2] = make_dgram(2, sc["n"][1].num(), scale, mode, rng, partial, -1);
+    const int ND = (int)sc["n"].size();
+    std::vector<Dgram> g(ND + 1);
+    for (int d = 1; d <= ND; ++d) for (int tries = 0; tries < 50; ++tries) { vh::Rng r2 = rng; g[d] = make_dgram(d, sc["n"][d - 1].num(), scale, mode, rng, partial, d == 1 ? trim : -1);
+        bool dup = false; for (int e = 1; e < d; ++e) if (g[e].id == g[d].id && g[e].src == g[d].src && g[e].dst == g[d].dst) dup = true;
+        if (!dup || mode != "mixed") break; (void)r2; }
     const bool own = args.num("own", 0) != 0;
-    out.begin(std::string(own ? "\"ip\":" + std::to_string((long)PDU::IP) + ",\"raw\":" + std::to_string((long)PDU::RAW) + "," : "") + "\"mode\":\"" + mode + "\",\"scale\":" + std::to_string(scale) + ",\"units\":[" + std::to_string(g[1].n) + "," + std::to_string(g[2].n) + "]");
+    out.begin(std::string(own ? "\"ip\":" + std::to_string((long)PDU::IP) + ",\"raw\":" + std::to_string((long)PDU::RAW) + "," : "") + "\"mode\":\"" + mode + "\",\"scale\":" + std::to_string(scale) + ",\"units\":[" + std::to_string(g[1].n) + "," + std::to_string(ND > 1 ? g[2].n : 0) + "],\"nd\":" + std::to_string(ND));
     std::unique_ptr<IPv4Reassembler> reasm_p(new IPv4Reassembler()); IPv4Reassembler& reasm = *reasm_p;
     const vh::Json& pk = sc["pkts"];
     for (size_t i = 0; i < pk.size(); ++i) {
@@ -90,13 +98,13 @@ static void scenario(const vh::Json& sc, vh::Out& out, vh::Rng& rng, const vh::A
         if (st == IPv4Reassembler::REASSEMBLED) {
             IP& r = top->rfind_pdu<IP>();
             std::vector<uint8_t> inner = r.inner_pdu() ? r.inner_pdu()->serialize() : std::vector<uint8_t>();
-            if (getenv("VH_DEBUG")) { FILE* se = fopen(getenv("VH_DEBUG"), "a"); for (int c = 1; c <= 2; ++c) { fprintf(se, "orig%d proto %d:", c, g[c].proto); for (size_t q = 0; q < g[c].payload.size(); ++q) fprintf(se, " %02x", g[c].payload[q]); fprintf(se, "\n"); } fprintf(se, "inner:"); for (size_t q = 0; q < inner.size(); ++q) fprintf(se, " %02x", inner[q]); fprintf(se, "\n"); fclose(se); }
+            if (getenv("VH_DEBUG")) { FILE* se = fopen(getenv("VH_DEBUG"), "a"); for (int c = 1; c <= ND; ++c) { fprintf(se, "orig%d proto %d:", c, g[c].proto); for (size_t q = 0; q < g[c].payload.size(); ++q) fprintf(se, " %02x", g[c].payload[q]); fprintf(se, "\n"); } fprintf(se, "inner:"); for (size_t q = 0; q < inner.size(); ++q) fprintf(se, " %02x", inner[q]); fprintf(se, "\n"); fclose(se); }
             w.key("out").O().key("payload").A();
             // which datagram do these bytes claim to be? identify per unit against both originals
             for (long u = 0; u * G.U < (long)inner.size(); ++u) {
                 long lo = u * G.U, hi = std::min<long>(lo + G.U, (long)inner.size());
                 int who = -1;
-                for (int t = 0; t < 2 && who < 0; ++t) { int c = t == 0 ? d : 3 - d;   /* identical header bytes: prefer the datagram being completed */ const std::vector<uint8_t>& P = g[c].payload; long chi = std::min<long>(lo + G.U, (long)P.size());
+                for (int t = 0; t <= ND && who < 0; ++t) { int c = t == 0 ? d : t; if (t && c == d) continue;   /* identical header bytes: prefer the datagram being completed */ const std::vector<uint8_t>& P = g[c].payload; long chi = std::min<long>(lo + G.U, (long)P.size());
                     if (lo < (long)P.size() && chi == hi && std::equal(inner.begin() + lo, inner.begin() + hi, P.begin() + lo)) who = c; }
                 if (who > 0) w.A().v(who).v(u).E(); else w.A().v(-1).v(-1).E();
             }
